@@ -34,6 +34,7 @@ Proof.
 Qed.
 
 Section Total.
+Variable exact : bool.
 Variable s : spec.
 Hypothesis W : eq_wf s.
 (* every class whose rule has no children (verified classes) is an atom *)
@@ -124,9 +125,9 @@ End TotalLoop.
 (* ------------------------------------------------------------------ the search on (s, s) *)
 Lemma base_cases_diag2 st p c r ne :
   failed st = [] -> find_rule s c = Some r ->
-  base_cases st p p c c r r ne ne = Ok 1 \/
-  (base_cases st p p c c r r ne ne = Ok 0 /\ r_children r <> [] /\
-   existsb (fun q => pair_in q (anc st)) (list_prod p p) = false).
+  base_cases exact st p p c c r r ne ne = Ok 1 \/
+  (base_cases exact st p p c c r r ne ne = Ok 0 /\ r_children r <> [] /\
+   existsb (fun q => pair_in q (anc st)) (anc_pairs exact p p c c) = false).
 Proof.
   intros Hf F. unfold base_cases.
   destruct (om_has (om st) (c, c)); [left; reflexivity|].
@@ -138,14 +139,14 @@ Proof.
   assert (Hch : r_children r <> []) by (intros X; rewrite X in Nil; discriminate).
   rewrite (Hrule c r F Hch). cbn [andb negb].
   rewrite eqb_reflx. cbn [negb]. rewrite ctor_equiv_refl. cbn [negb].
-  destruct (existsb (fun q => pair_in q (anc st)) (list_prod p p)); [left; reflexivity|].
+  destruct (existsb (fun q => pair_in q (anc st)) (anc_pairs exact p p c c)); [left; reflexivity|].
   right. auto.
 Qed.
 
 Lemma total_iso : forall m f st n r0,
   (undone (anc st) <= m)%nat -> (m + arity_bound + 1 <= f)%nat -> failed st = [] ->
   find_rule s n = Some r0 ->
-  exists st', iso s s f st n n = Ok (true, st') /\ anc st' = anc st /\ failed st' = [].
+  exists st', iso exact s s f st n n = Ok (true, st') /\ anc st' = anc st /\ failed st' = [].
 Proof.
   induction m as [m IHm] using lt_wf_ind. intros f st n r0 Hm Hfu Hf Fn.
   destruct f as [|f]; [lia|].
@@ -162,7 +163,7 @@ Proof.
   destruct (base_cases_diag2 st p c r (ne_children s r) Hf F) as [Hb|(Hb & Hch & Hx)]; rewrite Hb; cbn [bind].
   - change (Z.eqb 1 1) with true. cbv iota. eexists. split; [reflexivity|]. auto.
   - change (Z.eqb 0 1) with false. change (Z.eqb 0 (-1)) with false. cbv iota.
-    set (pr := list_prod p p).
+    set (pr := anc_pairs exact p p c c).
     set (nn := length (ne_children s r)).
     set (sA := mkSt (set_add_all (anc st) pr) (om st) (failed st)).
     assert (Hnot : forall q, In q pr -> ~ In q (anc st)).
@@ -171,7 +172,7 @@ Proof.
       { apply existsb_exists. exists q. split; auto. apply pair_in_In; auto. }
       unfold pr in X. congruence. }
     assert (Hcc : In (c, c) pr).
-    { assert (In c p) by (apply (eq_path_last_in _ _ _ W Ep)). apply in_prod; auto. }
+    { assert (In c p) by (apply (eq_path_last_in _ _ _ W Ep)). unfold pr. apply anc_pairs_self; auto. }
     assert (Hlt : (undone (anc sA) < undone (anc st))%nat).
     { apply (undone_lt _ _ c).
       - intros q Hq. simpl. apply set_add_all_In. auto.
@@ -183,7 +184,7 @@ Proof.
     { unfold nn. destruct (ne_children s r) eqn:En; [exfalso; eapply Hne; eauto|simpl; lia]. }
     assert (Hnb : (nn <= arity_bound)%nat) by (eapply ne_children_length; eauto).
     assert (Hrec : forall st1 a, anc st1 = anc sA -> failed st1 = [] -> In a (ne_children s r) ->
-              exists st', iso s s f st1 a a = Ok (true, st') /\ anc st' = anc sA /\ failed st' = []).
+              exists st', iso exact s s f st1 a a = Ok (true, st') /\ anc st' = anc sA /\ failed st' = []).
     { intros st1 a Ha1 Hf1 Hin. destruct (Hclosed c r a F Hin) as (ra & Fa).
       destruct (IHm m' (Nat.lt_succ_diag_r m') f st1 a ra) as (st' & E & A' & F'); auto.
       - rewrite Ha1. lia.
@@ -191,7 +192,7 @@ Proof.
       - exists st'. rewrite <- Ha1. auto. }
     destruct nn as [|k] eqn:Enn; [lia|].
     rewrite init_stack_eq. change (seq 0 (S k)) with (0%nat :: seq 1 k). cbn [map].
-    destruct (total_loop (ne_children s r) (S k) Enn (anc sA) (iso s s f) Hrec (S f) O
+    destruct (total_loop (ne_children s r) (S k) Enn (anc sA) (iso exact s s f) Hrec (S f) O
                          (map (fun i => (0%nat, i, [i])) (seq 1 k)) (repeat (-1) (S k)) sA)
       as (co & s0 & El & Ha0 & Hf0); [lia|lia|reflexivity|exact Hf|].
     change (rev (seq 0 1)) with [0%nat] in El. rewrite El. cbn [bind].
@@ -202,7 +203,7 @@ Qed.
 (* Isomorphism.check(s, s) is True *)
 Theorem refl_total : forall r0, find_rule s (s_root s) = Some r0 ->
   forall fuel, (length keys + arity_bound + 1 <= fuel)%nat ->
-  exists st', are_isomorphic s s fuel = Ok (true, st').
+  exists st', are_isomorphic exact s s fuel = Ok (true, st').
 Proof.
   intros r0 F fuel Hfu. unfold are_isomorphic.
   destruct (total_iso (length keys) fuel st0 (s_root s) r0) as (st' & E & _); auto.
